@@ -32,11 +32,11 @@ Pad(cs) ==
       nn == Len(cs.s.nIn)
       ng == Len(cs.s.gNodes)
   IN [cs EXCEPT !.sub = PadTo(@, nn, <<>>), !.ty = PadTo(@, nv, ""), !.sh = PadTo(@, nv, NoShape),
-                !.dn = PadTo(@, nv, <<>>),
+                !.dn = PadTo(@, nv, <<>>), !.mi = PadTo(@, nv, {}),
                 !.md = PadTo(@, nv, {}), !.mt = PadTo(@, nv, {}), !.nmd = PadTo(@, nn, {}),
                 !.nat = PadTo(@, nn, {}), !.gmd = PadTo(@, ng, {})]
 
-EmptyCS(s) == Pad([s |-> s, sub |-> <<>>, ty |-> <<>>, sh |-> <<>>, dn |-> <<>>, md |-> <<>>, mt |-> <<>>,
+EmptyCS(s) == Pad([s |-> s, sub |-> <<>>, ty |-> <<>>, sh |-> <<>>, dn |-> <<>>, mi |-> <<>>, md |-> <<>>, mt |-> <<>>,
                    nmd |-> <<>>, nat |-> <<>>, gmd |-> <<>>])
 
 COk(cs) == [s |-> cs, out |-> "ok"]
@@ -58,7 +58,7 @@ MapFresh(acc, v) ==   \* _clone_or_get_value
            s2 == [s1 EXCEPT !.vName[nv + 1] = acc.cs.s.vName[v], !.vConst[nv + 1] = acc.cs.s.vConst[v]]
            c1 == Pad([acc.cs EXCEPT !.s = s2])
            c2 == [c1 EXCEPT !.ty[nv + 1] = acc.cs.ty[v], !.sh[nv + 1] = acc.cs.sh[v], !.dn[nv + 1] = acc.cs.dn[v],
-                            !.md[nv + 1] = acc.cs.md[v], !.mt[nv + 1] = acc.cs.mt[v]]
+                            !.md[nv + 1] = acc.cs.md[v], !.mt[nv + 1] = acc.cs.mt[v], !.mi[nv + 1] = acc.cs.mi[v]]
        IN [acc EXCEPT !.cs = c2, !.vmap = [PadTo(@, nv + 1, 0) EXCEPT ![v] = nv + 1]]
 
 DefinedBy(cs, g) ==   \* values the graph g itself defines (not recursive)
@@ -85,6 +85,7 @@ CloneNode(acc, n, subs, allow, vmap0) ==
                        !.dn = [v \in DOMAIN @ |-> IF v > nv THEN cs0.dn[cs0.s.nOut[n][v - nv]] ELSE @[v]],
                        !.md = [v \in DOMAIN @ |-> IF v > nv THEN cs0.md[cs0.s.nOut[n][v - nv]] ELSE @[v]],
                        !.mt = [v \in DOMAIN @ |-> IF v > nv THEN cs0.mt[cs0.s.nOut[n][v - nv]] ELSE @[v]],
+                       !.mi = [v \in DOMAIN @ |-> IF v > nv THEN cs0.mi[cs0.s.nOut[n][v - nv]] ELSE @[v]],
                        !.sub[nn + 1] = subs, !.nmd[nn + 1] = cs0.nmd[n], !.nat[nn + 1] = cs0.nat[n]]
       base == PadTo(acc.vmap, nv + k, 0)
       vm == [v \in 1..(nv + k) |-> IF v <= nv /\ InSeq(cs0.s.nOut[n], v)
@@ -173,7 +174,10 @@ SetDenot(cs, v, i, k) ==
   ELSE IF ~PyIdxOK(Len(cs.sh[v]), i) THEN CRej(cs, "index")
   ELSE COk([cs EXCEPT !.dn[v][PyIdx(Len(cs.sh[v]), i)] = k])
 MetaPut(cs, v, k) == COk([cs EXCEPT !.md[v] = @ \cup {k}])
-ValMetaPut(cs, v, k) == COk([cs EXCEPT !.mt[v] = @ \cup {k}])
+\* value.meta[k] = ... : the key is (again) valid;  value.meta.invalidate(k): the key is marked as to be recomputed
+\* (mi = the invalid keys of the value's metadata store - the store's own bookkeeping, copied by a clone)
+ValMetaPut(cs, v, k) == COk([cs EXCEPT !.mt[v] = @ \cup {k}, !.mi[v] = @ \ {k}])
+MetaInvalidate(cs, v, k) == COk([cs EXCEPT !.mi[v] = @ \cup {k}])
 NodeMetaPut(cs, n, k) == COk([cs EXCEPT !.nmd[n] = @ \cup {k}])
 GraphMetaPut(cs, g, k) == COk([cs EXCEPT !.gmd[g] = @ \cup {k}])
 AttrPut(cs, n, k) == COk([cs EXCEPT !.nat[n] = @ \cup {k}])
@@ -190,6 +194,7 @@ CApply(cs, c) ==
     [] c.op = "SetDenot"     -> SetDenot(cs, c.v, c.i, c.name)
     [] c.op = "MetaPut"      -> MetaPut(cs, c.v, c.name)
     [] c.op = "ValMetaPut"   -> ValMetaPut(cs, c.v, c.name)
+    [] c.op = "MetaInvalidate" -> MetaInvalidate(cs, c.v, c.name)
     [] c.op = "NodeMetaPut"  -> NodeMetaPut(cs, c.n, c.name)
     [] c.op = "GraphMetaPut" -> GraphMetaPut(cs, c.g, c.name)
     [] c.op = "AttrPut"      -> AttrPut(cs, c.n, c.name)
